@@ -138,9 +138,9 @@ def cut_elements(topo):
 def gauss_degree(history):
     g = history['geom']['kind']
     mp = history['mesh']['kind'] == 'multipatch' or (history['mesh']['kind'] == 'unitsquare' and history['mesh']['etype'] == 'multipatch')
-    if g == 'quad':
-        return 8
-    return 4 if mp else 2
+    # element-affine root geometry: J, n J, x.n J, x J have total degree <= 1 (affine map) / <= 4 (quadratic map) also on the
+    # sub-simplices of trimmed elements; bilinear multipatch geometry (never combined with the quadratic map): <= 4
+    return 4 if (g == 'quad' or mp) else 2
 
 
 # ------------------------------------------------------------------ meshes
@@ -322,7 +322,7 @@ def gen_geometry(rng, ndims, tier):
     else:
         A = numpy.eye(ndims)
     b = rng.uniform(-2, 2, ndims)
-    if r < .8 or ndims == 3:
+    if r < .9 or ndims == 3:
         return dict(kind='affine', A=_fl(A), b=_fl(b))
     Q = rng.uniform(-1, 1, (ndims, ndims, ndims))
     return dict(kind='quad', A=_fl(A), b=_fl(b), eps=_f(rng.choice([.004, .01])), Q=_fl(Q))
@@ -336,11 +336,11 @@ def make_geometry(spec, geom0):
     A = numpy.array(spec['A'], dtype=float)
     b = numpy.array(spec['b'], dtype=float)
     d = len(A)
-    g = geom0[:d]
+    g = geom0[:d] if geom0.shape[0] > d else geom0
     if kind == 'quad':
         Q = numpy.array(spec['Q'], dtype=float)
-        g = g + float(spec['eps']) * numpy.stack([sum(Q[k, i, j] * g[i] * g[j] for i in range(d) for j in range(d)) for k in range(d)])
-    x = numpy.stack([sum(A[k, i] * g[i] for i in range(d)) + b[k] for k in range(d)])
+        g = g + float(spec['eps']) * numpy.einsum('kij,i,j->k', Q, g, g)
+    x = A @ g + b
     if geom0.shape[0] > d:
         x = numpy.concatenate([x, geom0[d:]])
     return x
@@ -462,6 +462,9 @@ def gen_history(rng, tier='quick', ndims=None, mesh_kinds=None, ops=None, maxops
         ndims = int(rng.choice([1, 2], p=[.3, .7]))
     mesh_spec = gen_mesh(rng, ndims, tier, mesh_kinds)
     geom_spec = gen_geometry(rng, ndims, tier)
+    if geom_spec['kind'] == 'quad' and (mesh_spec['kind'] == 'multipatch' or mesh_spec.get('etype') == 'multipatch' or mesh_spec.get('periodic')):
+        # multipatch: keeps the quadrature degree low; periodic: a non-affine map does not respect the periodicity (seam faces stop cancelling)
+        geom_spec = dict(kind='affine', A=geom_spec['A'], b=geom_spec['b'])
     ticks = mesh_ticks(mesh_spec)
     nops = int(rng.choice([1, 2, 3, 4, 5, 6], p=[.1, .22, .26, .2, .12, .1]))
     if maxops:
